@@ -72,6 +72,7 @@ inductive Out (V : Type)
   | putFull
   | got (r : Option V)
   | removed (r : Option V)
+  deriving DecidableEq
 
 def Out.isFull {V : Type} : Out V → Bool
   | .putFull => true
